@@ -235,4 +235,26 @@ def rule_force_only_when_fusing(ctx):
     r.floor(1)
 
 
-RULES = [rule_name_value, rule_single_path, rule_apply, rule_qt_override, rule_force_only_when_fusing]
+def rule_writer_counts_like_the_planner(ctx):
+    """space_text() plans a gap as `column += pc->Len()` - one column per code point - and output_text() pads up to the planned
+    column of the next token from cpd.column.  If the writer counts a character differently, the padding shrinks or grows by the
+    difference and a forced / added blank disappears"""
+    db = ctx.db
+    r = ctx.rule("writer-counts-like-the-planner", "add_char() moves cpd.column only by `++` for an ordinary character, to 1 at a line break and to "
+                 "next_tab_column(cpd.column) for a tab; space_text() advances its column by pc->Len()")
+    a = db.fn("add_char", file="src/output.cpp")
+    ups = [n for n in a.all_nodes() if n["k"] in ("asg", "un") and n.get("a") and expr_str(a, n["a"][0]) == "cpd.column"]
+    r.require(len(ups) >= 4, "add_char: only %d updates of cpd.column" % len(ups))
+    allowed = ("cpd.column++", "++cpd.column", "cpd.column = 1", "cpd.column = next_tab_column(cpd.column)", "cpd.column += 1", "cpd.column = cpd.column + 1")
+    for n in ups:
+        r.seen()
+        r.check(expr_str(a, n["i"]) in allowed, "add_char/%s" % expr_str(a, n["i"])[:40], db.loc(a, n),
+                "add_char() advances the output column by `%s`; space_text() counted one column per code point for the same text, so the "
+                "blanks planned behind it are written short or long" % expr_str(a, n["i"]))
+    sp = db.fn("space_text", file="src/space.cpp")
+    adv = [n for n in sp.all_nodes() if n["k"] == "asg" and expr_str(sp, n["i"]) == "column += pc->Len()"]
+    r.check(len(adv) >= 1, "space_text/advances-by-Len", db.loc(sp, sp.l0), "space_text() no longer advances its column by pc->Len()")
+    r.floor(5)
+
+
+RULES = [rule_name_value, rule_single_path, rule_apply, rule_qt_override, rule_force_only_when_fusing, rule_writer_counts_like_the_planner]
